@@ -1,5 +1,6 @@
 mod absval;
 mod calc;
+mod cross;
 mod drivers;
 mod emit;
 mod float;
@@ -111,6 +112,20 @@ fn main() {
             let seed: u64 = arg(&args, "--seed").and_then(|x| x.parse().ok()).unwrap_or(1);
             let samples: usize = arg(&args, "--samples").and_then(|x| x.parse().ok()).unwrap_or(300);
             println!("{}", special::bessel_parity(seed, samples));
+        }
+        "float-cross" => {
+            let files: Vec<String> = arg(&args, "--tables").expect("--tables").split(',').map(|s| s.to_string()).collect();
+            let progs = arg(&args, "--programs").expect("--programs");
+            let seed: u64 = arg(&args, "--seed").and_then(|x| x.parse().ok()).unwrap_or(1);
+            let k: f64 = arg(&args, "--k").and_then(|x| x.parse().ok()).unwrap_or(64.0);
+            let r = float::load(&files).and_then(|t| cross::load_members(&files).and_then(|ms| cross::run(&t, &ms, &progs, seed, k)));
+            match r {
+                Ok(v) => println!("{v}"),
+                Err(e) => {
+                    eprintln!("tool error: {e}");
+                    std::process::exit(2);
+                }
+            }
         }
         "float-prog" => {
             let files: Vec<String> = arg(&args, "--tables").expect("--tables").split(',').map(|s| s.to_string()).collect();
